@@ -2235,6 +2235,9 @@ class UpdateRisk(Algo):
         # General setup of risk on nodes
         if not hasattr(target, "risk"):
             self._setup_risk(target, set_history)
+        if set_history and not hasattr(target, "risks"):
+            # an earlier call with a smaller history depth created "risk" only
+            target.risks = pd.DataFrame(index=target.data.index)
         if self.measure not in target.risk:
             self._setup_measure(target, set_history)
 
